@@ -236,6 +236,8 @@ func BuildSquare(ods, tail int, runs []Run, seed uint64) *Square {
 }
 
 func (s *Square) fillRef() {
+	// fill the DAH's lazily cached hash now, so that concurrent readers of s.Roots only read
+	_ = s.Roots.Hash()
 	w := int(s.EDS.Width())
 	s.Ref = make([][][]byte, w)
 	for r := 0; r < w; r++ {
